@@ -590,7 +590,7 @@ pub(crate) fn check_ia5_string(s: &str) -> Result<(), Error> {
 pub(crate) fn check_oid(oid: &[u64]) -> Result<(), Error> {
 	match oid {
 		[0 | 1, second, ..] if *second < 40 => Ok(()),
-		[2, second, ..] if *second <= u64::MAX - 80 => Ok(()),
+		[2, second, ..] if *second < u64::MAX - 80 => Ok(()),
 		_ => Err(Error::InvalidObjectIdentifier),
 	}
 }
